@@ -9,7 +9,8 @@
 (* The episode is accepted iff out is one of FinalVectors(J, K): the exact *)
 (* K-step Frank-Wolfe iterates of module FrankWolfe, argmin ties left      *)
 (* nondeterministic.  Episodes whose candidates have a denominator above   *)
-(* DenCap are SKIPPED (the harness could not rationalise them uniquely).   *)
+(* DenCap (the harness could not rationalise them uniquely) or whose K     *)
+(* iterations do not fit TLC's 32-bit integers (CanStep) are SKIPPED.      *)
 (***************************************************************************)
 EXTENDS FrankWolfe, TLCExt
 
@@ -28,7 +29,7 @@ TInit == /\ J = <<<<0>>>> /\ G = <<<<0>>>> /\ m = 1 /\ alpha = Uniform(1) /\ k =
 
 TCheck == /\ ep <= NEp /\ stage = "run"
           /\ LET C   == FinalVectors(Ep.J, Ep.K)
-                 big == \E v \in C : MaxDenV(v) > DenCap
+                 big == ~Complete(Ep.J, Ep.K) \/ \E v \in C : MaxDenV(v) > DenCap
              IN  IF big THEN nSkip' = nSkip + 1 /\ nAcc' = nAcc /\ nRej' = nRej
                  ELSE IF Ep.out \in C THEN nAcc' = nAcc + 1 /\ nRej' = nRej /\ nSkip' = nSkip
                  ELSE /\ PrintT(<<"REJECT", ToJson([ep |-> Ep.ep,
